@@ -114,8 +114,18 @@ func RunC17(r *core.Run) {
 		if rr.Intn(3) == 0 && flags&sipsp.POptInputEndF == 0 {
 			cuts = CutsRandom(nil, rr, 0, len(buf), rr.Range(1, 5))
 		}
+		late := false
+		if flags&sipsp.POptInputEndF != 0 && rr.Bool() {
+			// the end-of-input flag only on the last call, which may or may not bring new bytes
+			cuts = CutsRandom(nil, rr, 0, len(buf), rr.Range(1, 4))
+			if rr.Bool() {
+				cuts = append(cuts, len(buf))
+			}
+			late = true
+			w.Inc("late_end_flag_runs")
+		}
 		t := &tokObj{flags: flags}
-		nn, e, _, pan := drive(t, buf, 0, cuts)
+		nn, e, _, pan := driveLate(t, buf, 0, cuts, late)
 		w.Eval(1)
 		fail := func(cls, what string) {
 			w.Fail(cls, func() *core.Violation { return core.V("ParseTokenParam: "+what, buf, plDetail(pl, cuts)) })
@@ -188,7 +198,16 @@ func RunC17(r *core.Run) {
 				core.Guard(func() { ob.Call(ol[:rr.Intn(len(ol)+1)], 0); ob.Reset() })
 				w.Inc("lists_on_reused_objects")
 			}
-			nn, e, _, pan := drive(ob, buf, 0, cuts)
+			late := false
+			if eff&sipsp.POptInputEndF != 0 && rr.Bool() {
+				cuts = CutsRandom(nil, rr, 0, len(buf), rr.Range(1, 3))
+				if rr.Bool() {
+					cuts = append(cuts, len(buf))
+				}
+				late = true
+				w.Inc("late_end_flag_runs")
+			}
+			nn, e, _, pan := driveLate(ob, buf, 0, cuts, late)
 			w.Eval(1)
 			fail := func(cls, what, fnd string) {
 				w.FailF(cls+"/"+name, fnd, func() *core.Violation {
